@@ -78,17 +78,18 @@ class Run:
         return E.evaluate(e, self.env, self.eval_memo)
 
     # ---- simplification / decisions
-    def simplify_cond(self, c: Expr, use_smt: bool = True) -> Optional[bool]:
+    def simplify_cond(self, c: Expr, use_smt=True) -> Optional[bool]:
+        """use_smt: True = ring + linear hypotheses only (cheap); "full" = also the full (nonlinear) context."""
         if c.op == "bconst":
             return c.args[0]
-        k = c.id
+        k = (c.id, use_smt)
         if k in self._simp_cache:
             return self._simp_cache[k]
         r = self._simplify(c, use_smt)
         self._simp_cache[k] = r
         return r
 
-    def _simplify(self, c: Expr, use_smt: bool) -> Optional[bool]:
+    def _simplify(self, c: Expr, use_smt) -> Optional[bool]:
         op = c.op
         if op == "not":
             r = self.simplify_cond(c.args[0], use_smt)
@@ -124,12 +125,17 @@ class Run:
                     return {"lt": v < 0, "le": v <= 0, "eq": v == 0}[op]
         if use_smt:
             try:
-                t = self.ctx.entails(c)
-                if t:
+                if self.ctx.lin_refutes(E.not_(c)):
                     return True
-                f = self.ctx.entails(E.not_(c)) if t is not None else None
-                if f:
+                if self.ctx.lin_refutes(c):
                     return False
+                if use_smt == "full":
+                    t = self.ctx.entails(c)
+                    if t:
+                        return True
+                    f = self.ctx.entails(E.not_(c)) if t is not None else None
+                    if f:
+                        return False
             except E.Unsupported:
                 return None
         return None
@@ -142,25 +148,23 @@ class Run:
         if pos >= self.max_decisions:
             raise PathLimit(f"more than {self.max_decisions} decisions on one path")
         site = _site()
-        if pos < len(self.prefix):
-            taken = self.prefix[pos]
-        else:
-            try:
-                taken = bool(self.witness_value(c))
-            except Exception:
-                taken = True
-            ft = self.ctx.feasible(c if taken else E.not_(c))
-            if ft is False:
-                taken = not taken
-            else:
-                fo = self.ctx.feasible(E.not_(c) if taken else c)
-                if fo is not False:
-                    self.pending.append([t for _, t, _ in self.decisions] + [not taken])
         try:
             nat = bool(self.witness_value(c))
         except Exception:
-            nat = taken
-        if nat != taken:
+            nat = None
+        if pos < len(self.prefix):
+            taken = self.prefix[pos]
+        else:
+            taken = True if nat is None else nat
+            if not (self.on_witness and nat is not None):
+                # the witness no longer follows this path: make sure the branch is feasible at all
+                if self.ctx.feasible(c if taken else E.not_(c)) is False:
+                    taken = not taken
+            other = E.not_(c) if taken else c
+            fo = self.ctx.feasible(other)
+            if fo is not False:
+                self.pending.append([t for _, t, _ in self.decisions] + [not taken])
+        if nat is not None and nat != taken:
             self.on_witness = False
         self.decisions.append((c, taken, site))
         self.ctx.assume(c if taken else E.not_(c))
